@@ -1378,6 +1378,24 @@ func (b *cliBins) runCase(c *cliCfg, dir string, driver string) Case {
 			}
 		}
 		cs.Probes = append(cs.Probes, Probe{Kind: "direct", Rel: "C14 exit 0 iff the documents are Equal under the options, 1 otherwise", Want: w})
+		// model-free: "exit 0 when there is no difference, 1 when there is" — the difference the program itself PRINTED
+		// (native format: the empty text; -f patch: the empty operation list; -f merge is decided from the diff and is
+		// left to the probe above)
+		if !c.Git && (c.F == "" || c.F == "jd" || c.F == "patch") {
+			got := pe.obs.Stdout
+			if pe.obs.Outfile != nil {
+				got = *pe.obs.Outfile
+			}
+			shown := strings.TrimSpace(got) != ""
+			if c.F == "patch" {
+				shown = strings.TrimSpace(got) != "[]"
+			}
+			w3 := "ok"
+			if shown != (pe.obs.Exit == 1) {
+				w3 = fmt.Sprintf("fail %s exits %d but %s", c.cmdline(), pe.obs.Exit, map[bool]string{true: "printed a difference: " + short(got), false: "printed no difference"}[shown])
+			}
+			cs.Probes = append(cs.Probes, Probe{Kind: "direct", Rel: "C14 diff mode: exit 1 exactly when the output shows a difference", Want: w3})
+		}
 		if !c.Color && !c.Git && !c.Yaml {
 			// the first clause, without the model in between: what the binary emitted is what the library
 			// renders for the options these flags denote (keys trimmed, Precision last)
@@ -2106,6 +2124,17 @@ func cliFixedMatrix() []*cliCfg {
 				c.Args = []cliArg{{Content: cliJSON(a)}, {Content: cliJSON(b)}}
 				out = append(out, c)
 			}
+		}
+	}
+	// numbers that differ by less than the precision and nothing else (v2 Diff ignores the precision, v1 honours it): the
+	// exit status must follow what the program PRINTS
+	pa, pb := VObj("name", VStr("probe"), "temp", VNum(20)), VObj("name", VStr("probe"), "temp", VNum(20.04))
+	for _, bin := range [][2]string{{"v2jd", ""}, {"top", ""}, {"top", "false"}} {
+		for _, f := range []string{"", "patch", "merge"} {
+			c := &cliCfg{Bin: bin[0], V2: bin[1], Kind: "diff", F: f, Prec: "0.1"}
+			cliSetDocs(c, pa, pb)
+			c.Args = []cliArg{{Content: cliJSON(pa)}, {Content: cliJSON(pb)}}
+			out = append(out, c)
 		}
 	}
 	return out
